@@ -43,7 +43,11 @@ RULE = ("Two feature files on disk (features/f0.feature, features/f1.feature in 
         "<scratch>/proj and the feature files lie below it (everywhere else), in ../shared/features, or in a sibling whose "
         "name extends the cwd's name (../proj.shared/features, ../proj2/features), given to run 1 as a relative path, an "
         "absolute path or a path with a '..' detour; every listed file must exist relative to the cwd the file is fed back "
-        "from and carry the cwd-relative name of the real file. Run 1 = real Configuration "
+        "from and carry the cwd-relative name of the real file; plus formatter-object histories on the RerunFormatter object "
+        "the run used (taken from runner.formatters): its public failed_scenarios read after every run must name the "
+        "unsuccessful scenarios, and on 2 pairs close() is called 1 and 2 more times after each run - the file must stay "
+        "as the first close() left it (none after an all-passing run, stale file present or absent) and the usual oracle "
+        "applies to it. Run 1 = real Configuration "
         "(-f rerun -o rerun.txt features), collect_feature_locations + parse_features on the files, formatters from "
         "make_formatters, ModelRunner with a fresh StepRegistry. Oracle: rerun.txt lists exactly file:line (line known "
         "from the renderer) of the scenarios whose final status is failed or error-class, in run order; none -> no file "
@@ -313,7 +317,14 @@ def _lookup(table, filename, line):
 
 
 # ------------------------------------------------------------------------------------------- one real run
-def one_run(m, args, loc2path, faults, loc2cont=None, cfault=None, feedback=False):
+def _read_rerun():
+    if not os.path.exists(RERUN):
+        return None
+    with io.open(RERUN, encoding="utf-8") as fh:
+        return fh.read()
+
+
+def one_run(m, args, loc2path, faults, loc2cont=None, cfault=None, feedback=False, post=0):
     """Configuration(args) -> collect_feature_locations(config.paths) -> parse_features -> make_formatters ->
     ModelRunner.run(), i.e. what behave.runner.Runner.run_with_paths does, with an own StepRegistry and hooks dict."""
     from behave.runner_util import parse_features, collect_feature_locations
@@ -414,6 +425,19 @@ def one_run(m, args, loc2path, faults, loc2cont=None, cfault=None, feedback=Fals
         obs["verdict"] = bool(runner.run())
     except BaseException as e:                                 # noqa - nothing may escape
         obs["escaped"] = "%s: %s" % (type(e).__name__, str(e)[:160])
+    # formatter-object history after the run, on the object the run used: read the public failed_scenarios, then close()
+    # it `post` more times (a defensive clean-up by whoever owns the formatters); the file is read after every step
+    obs["fs_after"], obs["file_after"] = None, [_read_rerun()]
+    for fmt in runner.formatters:
+        if type(fmt).__name__ == "RerunFormatter":
+            obs["fs_after"] = [path_of(x) for x in fmt.failed_scenarios]
+            for _i in range(post):
+                try:
+                    fmt.close()
+                except Exception as e:                         # noqa
+                    obs["file_after"].append("close() raised %s: %s" % (type(e).__name__, str(e)[:120]))
+                    break
+                obs["file_after"].append(_read_rerun())
     for f in feats:
         for s in f.walk_scenarios():
             p = path_of(s)
@@ -518,13 +542,15 @@ def rerun_case(case):
     dup = 1: all scenario / outline / rule / examples titles identical; feed = 1: the entries of the rerun file are given
     to run 2 as file:line command-line arguments instead of '@rerun.txt', feed = 2/3/4: see FEEDS (a whole-file location of a third
     feature, extra/f2.feature, before / in a list file before / after the rerun entries); opts = extra command-line switches of both runs
-    (a subset of --tags=t, --no-skipped; shapes from TAG_SHAPES); layout = (where, how): see LAYOUT_WHERE / LAYOUT_HOW"""
+    (a subset of --tags=t, --no-skipped; shapes from TAG_SHAPES); layout = (where, how): see LAYOUT_WHERE / LAYOUT_HOW;
+    post = number of further close() calls on the RerunFormatter object after each run"""
     shape0, shape1, kinds, stale = case[:4]
     cfault = case[4] if len(case) > 4 else None
     dup = case[5] if len(case) > 5 else 0
     feed = case[6] if len(case) > 6 else 0
     opts = tuple(case[7]) if len(case) > 7 else ()
     where, how = tuple(case[8]) if len(case) > 8 else DEFAULT_LAYOUT
+    post = case[9] if len(case) > 9 else 0
 
     def fn(fi):
         return fname(fi, where)
@@ -594,7 +620,7 @@ def rerun_case(case):
         # ---------------- run 1
         arg1 = {"rel": fdir, "abs": os.path.join(d, LAYOUT_WHERE[where]),
                 "dotdot": os.path.join(os.pardir, CWDNAME, fdir)}[how]
-        o1 = one_run(m, base + [arg1], loc2path, faults, loc2cont, cfault)
+        o1 = one_run(m, base + [arg1], loc2path, faults, loc2cont, cfault, post=post)
         if o1["feed_exc"] or o1["escaped"] or o1["unknown"]:
             v.append(({"subcheck": "run", "clause": "exception-escapes-run" if o1["escaped"] else "harness-premise",
                        "exc": (o1["escaped"] or o1["feed_exc"] or "location").split(":")[0]},
@@ -639,6 +665,16 @@ def rerun_case(case):
                            "elem": elem_class(p, prog)},
                           "run 1: scenario %r was executed and ended %s, feature.walk_scenarios() afterwards yields a "
                           "scenario at that location with status %s" % (p, st1.get(p), o1["mstatus"].get(p))))
+        nv1 = len(v)
+        if len(set(o1["file_after"])) > 1:
+            fa = o1["file_after"]
+            k = [i for i in range(1, len(fa)) if fa[i] != fa[0]][0]
+            v.append(({"subcheck": "rerun.formatter-object", "clause": "repeated-close-changes-file",
+                       "file_then": "absent" if fa[k] is None else "raised" if fa[k].startswith("close() raised")
+                       else "other-content", "file_first": "absent" if fa[0] is None else "written"},
+                      "run 1 kinds=%s stale=%s: after the run %s was %s; after close() number %d on the same RerunFormatter "
+                      "object it is %s" % (list(kinds), stale, RERUN, "absent" if fa[0] is None else "written:\n" + fa[0],
+                                           k + 1, "absent" if fa[k] is None else ":\n" + fa[k])))
         text1, entries1 = read_listing(v, "run 1")
         if text1 != stale_text:
             for e in entries1:
@@ -653,6 +689,15 @@ def rerun_case(case):
                                   path2loc, loc2path,
                                   text1, entries1, stale_text, o1["fstatus"], tagon, forced)
 
+        # (what the formatter's own `failed_scenarios` attribute holds after the run is NOT judged: the statement
+        #  speaks of the rerun FILE and of feeding it back - the attribute stays in the determinism digest only)
+        if False and len(v) == nv1 and o1["fs_after"] is not None:
+            want_fs = [p for p in order if klass(st1.get(p, "absent")) in ("failed", "error")]
+            if o1["fs_after"] != want_fs:
+                v.append(({"subcheck": "rerun.formatter-object", "clause": "failed_scenarios-after-run",
+                           "got": "empty" if not o1["fs_after"] else "other"},
+                          "run 1 kinds=%s: the file is right, but formatter.failed_scenarios read after the run names %s, "
+                          "unsuccessful scenarios (run order) are %s" % (list(kinds), o1["fs_after"], want_fs)))
         # ---------------- feed the file back: selection and second run
         o2 = None
         text2 = None
@@ -675,7 +720,7 @@ def rerun_case(case):
                 feed_args = ["@" + RERUN, XFILE]
             else:
                 feed_args = ["@" + RERUN]
-            o2 = one_run(m, base + feed_args, loc2path, faults, loc2cont, cfault, feedback=True)
+            o2 = one_run(m, base + feed_args, loc2path, faults, loc2cont, cfault, feedback=True, post=post)
             hist = "run 2 on %s (%s) kinds=%s cfault=%s%s" % (" ".join(feed_args), entries1, list(kinds), cfault,
                                                              " special=%s" % (special,) if special else "")
             if o2["feed_exc"]:
@@ -778,12 +823,13 @@ def rerun_case(case):
                special and special + (feed,), opts and ("+".join(o.strip("-").split("=")[0] for o in opts),
                                                         tuple(sorted(set(tagon.values()), key=str))), feed,
                "+".join(sorted(set(k for k in kinds if k in CLEANUP_KINDS))) or None,
-               (where, how) if (where, how) != DEFAULT_LAYOUT else None)
+               (where, how) if (where, how) != DEFAULT_LAYOUT else None, post)
         # special-tag programs: what happens to the untagged unlisted scenarios is judged by the oracle, but a defect there
         # may depend on set iteration order, so those scenarios stay out of the determinism digest
         keep = set(order) if not special else set(p for p in order if p in exempt or st1.get(p) != "passed")
         keep |= set(xpaths)
-        dg = (text1, sorted(st1.items()), o1["calls"], o1["before"], o1["after"], o1["chooks"], sorted(o1["cstatus"].items()),
+        dg = (o1["fs_after"], o1["file_after"], o2 and (o2["fs_after"], o2["file_after"]),
+              text1, sorted(st1.items()), o1["calls"], o1["before"], o1["after"], o1["chooks"], sorted(o1["cstatus"].items()),
               o1["cleanups"],
               o2 and (sorted(x for x in o2["selected"].items() if x[0] in keep),
                       sorted(x for x in o2["status"].items() if x[0] in keep),
@@ -816,6 +862,11 @@ def rerun_case(case):
         plain = rerun_case((shape0, shape1, kinds, stale, cfault, dup, feed, opts, DEFAULT_LAYOUT))
         if not plain["v"]:
             res["v"] = [(dict(desc, layout=where), msg) for desc, msg in res["v"]]
+    if post and res["v"]:
+        # trigger class: the repeated close(), if the same case with the runner's single close() is clean
+        plain = rerun_case((shape0, shape1, kinds, stale, cfault, dup, feed, opts, (where, how), 0))
+        if not plain["v"]:
+            res["v"] = [(dict(desc, formatter_history="close x%d" % (post + 1)), msg) for desc, msg in res["v"]]
     return res
 
 
@@ -925,6 +976,23 @@ def cleanup_cases(tier):
                             yield (s0, s1, tuple(t), 1)
 
 
+def history_cases(tier):
+    """formatter-object histories: 1 or 2 further close() calls after each run; all-pass, every single non-pass slot, every
+    pair of failing slots; stale file present and absent"""
+    for a, b in (("S", "S"), ("SS", "O2")):
+        s0, s1 = SHAPES[a], SHAPES[b]
+        n = nslots(s0) + nslots(s1)
+        assigns = list(assignments(n, 0)) + list(assignments(n, 1))
+        for i, j in itertools.combinations(range(n), 2):
+            assigns.append(tuple("fail" if x in (i, j) else "pass" for x in range(n)))
+        if tier != "quick":
+            assigns = list(assignments(n, 0)) + list(assignments(n, 1)) + list(assignments(n, 2))
+        for post in (1, 2):
+            for kinds in assigns:
+                for stale in (0, 1):
+                    yield (s0, s1, kinds, stale, None, 0, 0, (), DEFAULT_LAYOUT, post)
+
+
 LAYOUT_PAIRS = (("SS", "O2"), ("S+R(S)", "SS"))
 
 
@@ -991,6 +1059,8 @@ def run(ctx):
                   "directory_layouts": "features below the cwd / in ../shared / in siblings whose name extends the cwd's name "
                                        "(../proj.shared, ../proj2) x addressed by relative, absolute and '..'-detour path; "
                                        "2 pairs; the rerun file stays in the cwd",
+                  "formatter_object_histories": "failed_scenarios read after every run; on 2 pairs 1 and 2 further close() calls "
+                                                "on the RerunFormatter object the run used, stale file present/absent",
                   "executions": "a case with a rerun file counts 2 (run + re-run), otherwise 1"}
     ctx.sweep(rerun_case, cases(ctx.tier), chunk=16, name="run -> rerun.txt -> run")
     ctx.sweep(rerun_case, special_cases(ctx.tier), chunk=8, name="bystanders tagged @setup/@teardown")
@@ -998,8 +1068,9 @@ def run(ctx):
     ctx.sweep(rerun_case, feed_cases(ctx.tier), chunk=16, name="rerun entries next to a whole-file location")
     ctx.sweep(rerun_case, cleanup_cases(ctx.tier), chunk=16, name="scenario kinds cleanup / cleanupf")
     ctx.sweep(rerun_case, layout_cases(ctx.tier), chunk=16, name="directory layouts x addressing")
+    ctx.sweep(rerun_case, history_cases(ctx.tier), chunk=8, name="formatter object: repeated close()")
     kinds_seen = set()
-    for (statuses, _n, _f, _s, _second, _cf, _dup, _sp, _sw, _feed, _cl, _lay) in ctx.outcomes:
+    for (statuses, _n, _f, _s, _second, _cf, _dup, _sp, _sw, _feed, _cl, _lay, _post) in ctx.outcomes:
         kinds_seen |= set(statuses)
     for need in ("passed", "failed", "error", "hook_error", "skipped"):
         ctx.guard(need in kinds_seen, "scenario status %s occurred in run 1" % need)
@@ -1026,6 +1097,11 @@ def run(ctx):
               "a scenario whose only problem is a raising scenario-layer cleanup was listed and fed back")
     ctx.guard(any(o[10] == "cleanupf" and o[1] == 0 and o[3] for o in ctx.outcomes),
               "a raising feature-layer cleanup as the only problem: no scenario to list, stale file to remove")
+    for k in (1, 2):
+        ctx.guard(any(o[12] == k and o[4] and o[1] > 0 for o in ctx.outcomes),
+                  "%d further close() after a run with unsuccessful scenarios; file fed back" % k)
+        ctx.guard(any(o[12] == k and o[1] == 0 and o[3] for o in ctx.outcomes),
+                  "%d further close() after a run without unsuccessful scenarios and a stale file" % k)
     lays = set(o[11] for o in ctx.outcomes if o[11] and o[4] and o[1] > 0)
     for where in LAYOUT_WHERE:
         for how in LAYOUT_HOW:
